@@ -41,7 +41,10 @@ TOL = 1e-10
 
 # pure_dep / em_dep: one supplied tensor is a function of another supplied tensor (reference: pure_depref)
 DEP_KINDS = ["pure_dep", "em_dep"]
-KINDS = [k for k in F.ALL_KINDS if k != "pure"] + DEP_KINDS
+# pure_twice / em_twice: the same tensor object supplied at two positions (twice explicitly; held by the object
+# and passed explicitly); multi3: a sibling of three methods of three objects
+MORE_KINDS = ["pure_twice", "em_twice", "multi3"]
+KINDS = [k for k in F.ALL_KINDS if k != "pure"] + DEP_KINDS + MORE_KINDS
 FUNCS = F.FUNCTIONALS + ["jac_solve"]
 
 
@@ -50,7 +53,9 @@ def cases(tier, seed):
     planes = [0] if tier == "quick" else [0, 1, 2]
     for plane in planes:
         for fname in FUNCS:
-            methods = F.METHODS[fname][:1] if tier == "quick" else F.METHODS[fname]
+            methods = F.METHODS[fname]
+            if tier == "quick":     # first method, plus its list-of-tensors state variant for solve_ivp
+                methods = methods[:1] + [m for m in methods[1:] if m == methods[0] + ":list"]
             for method in methods:
                 for bck in F.BCK.get(fname, ["-"]):
                     for extra in (0, 1):
@@ -58,7 +63,7 @@ def cases(tier, seed):
                             for order in (0, 1, 2):
                                 if order > 0 and rg == "":
                                     continue
-                                if order == 2 and method in F.ADAPTIVE:
+                                if order == 2 and method.split(":")[0] in F.ADAPTIVE:
                                     continue
                                 # kind innermost: consecutive cases share the pure-function reference (cached per worker)
                                 for kind in KINDS:
